@@ -241,6 +241,157 @@ func runLaws(c *Ctx) {
 			c.addLaws(tc, vg.Value(tc.T, d), "laws")
 		}
 	}
+	boundaryLaws(c)
+}
+
+// boundaryLaws: bodies whose length sits on each side of the one/two/three-byte
+// boundaries of the length prefix (127|128, 16383|16384), for every codec that
+// frames its body, bare and wrapped (struct field, nested struct, map value,
+// slice element), with one- and two-byte tags (addLaws picks the tag index).
+type lawBox struct {
+	A []int   `plenc:"1"`
+	B []bool  `plenc:"2"`
+	C []uint8 `plenc:"3"`
+	D string  `plenc:"4"`
+	E []byte  `plenc:"5"`
+	F MyBytes `plenc:"6"`
+	G []MyInt `plenc:"40"`
+	H []int8  `plenc:"17"`
+}
+type lawOuter struct {
+	In lawBox            `plenc:"1"`
+	P  *lawBox           `plenc:"2"`
+	L  []lawBox          `plenc:"3"`
+	M  map[string]lawBox `plenc:"33"`
+	MS map[string][]int  `plenc:"5"`
+	LL [][]int           `plenc:"6"`
+	LS []string          `plenc:"7"`
+	MM map[string]string `plenc:"8"`
+}
+
+func boundaryLaws(c *Ctx) {
+	lens := []int{0, 1, 119, 120, 121, 122, 123, 124, 125, 126, 127, 128, 129, 130, 131}
+	big := []int{16376, 16378, 16379, 16380, 16381, 16382, 16383, 16384, 16385, 16386}
+	if c.Tier == "thorough" {
+		for n := 100; n < 140; n++ {
+			lens = append(lens, n)
+		}
+		for n := 16360; n < 16400; n++ {
+			big = append(big, n)
+		}
+	}
+	ints := func(n int) []int {
+		l := make([]int, n)
+		for i := range l {
+			l[i] = c.rng.Intn(120) - 60 // one byte each
+		}
+		return l
+	}
+	str := func(n int) string {
+		b := make([]byte, n)
+		for i := range b {
+			b[i] = byte('a' + c.rng.Intn(26))
+		}
+		return string(b)
+	}
+	box := func(which, n int) lawBox {
+		var b lawBox
+		switch which {
+		case 0:
+			b.A = ints(n)
+		case 1:
+			b.B = make([]bool, n)
+			for i := range b.B {
+				b.B[i] = c.rng.Bool()
+			}
+		case 2:
+			b.C = []uint8(str(n))
+		case 3:
+			b.D = str(n)
+		case 4:
+			b.E = []byte(str(n))
+		case 5:
+			b.F = MyBytes(str(n))
+		case 6:
+			for _, x := range ints(n) {
+				b.G = append(b.G, MyInt(x))
+			}
+		case 7:
+			for _, x := range ints(n) {
+				b.H = append(b.H, int8(x))
+			}
+		}
+		return b
+	}
+	for _, cfg := range []Cfg{{}, {ProtoArrays: true}} {
+		tcBox := newTypeCase(reflect.TypeOf(lawBox{}), cfg)
+		tcOut := newTypeCase(reflect.TypeOf(lawOuter{}), cfg)
+		tcInts := newTypeCase(reflect.TypeOf([]int{}), cfg)
+		tcStr := newTypeCase(reflect.TypeOf(""), cfg)
+		for _, n := range append(append([]int{}, lens...), big...) {
+			if n > 1000 && cfg.ProtoArrays {
+				continue
+			}
+			which := c.rng.Intn(8)
+			if n <= 1000 {
+				iv := reflect.New(tcInts.T).Elem()
+				iv.Set(reflect.ValueOf(ints(n)))
+				c.addLaws(tcInts, iv, "laws-boundary")
+				sv := reflect.New(tcStr.T).Elem()
+				sv.SetString(str(n))
+				c.addLaws(tcStr, sv, "laws-boundary")
+			}
+			for w := 0; w < 8; w++ {
+				if n > 1000 && w != which {
+					continue
+				}
+				// the framed body itself on the boundary, then the enclosing bodies: a few
+				// bytes of headers are added at each level, so slide the length down
+				for _, slack := range []int{0, 2, 3, 4, 5, 6} {
+					if n < slack || (slack > 0 && c.rng.Chance(70)) {
+						continue
+					}
+					b := box(w, n-slack)
+					bv := reflect.New(tcBox.T).Elem()
+					bv.Set(reflect.ValueOf(b))
+					c.addLaws(tcBox, bv, "laws-boundary")
+					var o lawOuter
+					switch c.rng.Intn(6) {
+					case 0:
+						o.In = b
+					case 1:
+						o.P = &b
+					case 2:
+						o.L = []lawBox{{}, b}
+					case 3:
+						o.M = map[string]lawBox{"k": b}
+					case 4:
+						o.MS = map[string][]int{"": ints(n - slack), "k": ints(n - slack)}
+						o.LL = [][]int{ints(n - slack), nil, ints(n - slack)}
+					default:
+						o.LS = []string{str(n - slack), "", str(n - slack)}
+						o.MM = map[string]string{"k": str(n - slack), str(n - slack): "v"}
+					}
+					ov := reflect.New(tcOut.T).Elem()
+					ov.Set(reflect.ValueOf(o))
+					c.addLaws(tcOut, ov, "laws-boundary")
+				}
+			}
+		}
+	}
+	// counts on the boundary (elements of a counted slice, entries of a map)
+	for _, n := range []int{126, 127, 128, 129} {
+		tc := newTypeCase(reflect.TypeOf(lawOuter{}), Cfg{})
+		var o lawOuter
+		o.MM = map[string]string{}
+		for i := 0; i < n; i++ {
+			o.LS = append(o.LS, str(c.rng.Intn(2)))
+			o.MM[fmt.Sprintf("%d", i)] = ""
+		}
+		ov := reflect.New(tc.T).Elem()
+		ov.Set(reflect.ValueOf(o))
+		c.addLaws(tc, ov, "laws-boundary-count")
+	}
 }
 
 // C06: Marshal appends
@@ -262,6 +413,17 @@ func runMarshal(c *Ctx) {
 			byValue := c.rng.Chance(40) && tc.T.Kind() != reflect.Ptr // a pointer passed "by value" is the by-pointer convention for its target
 			c.addMarshal(tc, v, prefix, spare, byValue, "marshal")
 		}
+	}
+	// pointer-shaped values (held in the interface data word itself) at every wrapping
+	// depth, by value and by pointer
+	for i := 0; i < scale(c, 60, 1200); i++ {
+		t := catalogueWrap[i%len(catalogueWrap)]
+		tc := newTypeCase(t, randCfg(c))
+		v := vg.Value(t, 3)
+		prefix := randBytes(c.rng, []int{0, 1, 3}[c.rng.Intn(3)])
+		spare := []int{0, 1, 7, 64}[c.rng.Intn(4)]
+		c.addMarshal(tc, v, prefix, spare, true, "marshal-wrapped")
+		c.addMarshal(tc, v, prefix, spare, false, "marshal-wrapped")
 	}
 	// the JSON-any codecs append through helpers of their own: nested containers,
 	// with every small spare capacity so that the buffer is reallocated mid-entry
